@@ -48,67 +48,86 @@ theorem pySorted_length {α : Type} (key : α → J) (xs ys : List α) (h : pySo
 /-! ### `_receive_response` -/
 
 theorem findSingle_of_any (rid : J) :
-    ∀ out : List Key, (singleKeys out).any (pyEq rid) = true → ∃ k, findSingle rid out = some k
+    ∀ out : List Entry, (singleKeys out).any (pyEq rid) = true → ∃ en, findSingle rid out = some en
   | [], h => by simp [singleKeys] at h
-  | .single i :: r, h => by
-      simp only [findSingle]
-      by_cases hi : pyEq rid i = true
-      · simp [hi]
-      · simp only [hi, Bool.false_eq_true, if_false]
+  | en :: r, h => by
+      unfold findSingle
+      cases hk : en.key with
+      | single i =>
+        simp only
+        by_cases hi : pyEq rid i = true
+        · simp [hi]
+        · simp only [hi, Bool.false_eq_true, if_false]
+          apply findSingle_of_any rid r
+          simp only [singleKeys, List.filterMap_cons, hk, List.any_cons] at h
+          simpa [hi, singleKeys] using h
+      | batch ks =>
+        simp only
         apply findSingle_of_any rid r
-        simp only [singleKeys, List.filterMap_cons, List.any_cons] at h
-        simpa [hi, singleKeys] using h
-  | .batch ks :: r, h => by
-      simp only [findSingle]
-      apply findSingle_of_any rid r
-      simpa [singleKeys] using h
+        simpa [singleKeys, hk] using h
 
-/-- the three things `_receive_response` can do -/
+theorem findSingle_mem (rid : J) : ∀ (out : List Entry) (en : Entry),
+    findSingle rid out = some en → en ∈ out
+  | [], en, h => by simp [findSingle] at h
+  | a :: r, en, h => by
+      unfold findSingle at h
+      cases hk : a.key with
+      | single i =>
+        rw [hk] at h
+        simp only at h
+        split at h
+        · injection h with h; subst h; simp
+        · exact List.mem_cons_of_mem _ (findSingle_mem rid r en h)
+      | batch ks =>
+        rw [hk] at h
+        exact List.mem_cons_of_mem _ (findSingle_mem rid r en h)
+
+/-- what popping an entry and resolving its future does when the code looks at `done()` first -/
+theorem resolve_cases (c' : Conn) (en : Entry) (v : Completion) :
+    (en.fut = .pending ∧ resolve true c' en v = (c', .ok { completed := some (en.key, v) }))
+    ∨ (en.fut ≠ .pending ∧ resolve true c' en v = (c', .ok { discarded := some en.key })) := by
+  unfold resolve
+  cases en.fut <;> simp
+
+/-- the things `_receive_response` can do: resolve the pending future of the entry the id names
+and drop the entry; drop the entry whose future is already done; or refuse with a
+`ProtocolError` that carries no reply -/
 theorem receiveResponse_cases (g : Guards) (hg : adequate g = true) (c : Conn) (v : RespVal) (rid : J) :
-    (∃ k, k ∈ c.out ∧ findSingle rid c.out = some k ∧
+    (∃ en, en ∈ c.out ∧ findSingle rid c.out = some en ∧ en.fut = .pending ∧
         receiveResponse g c v rid =
-          ({ c with out := popSingle rid c.out }, .ok { completed := some (k, .single v) }))
+          ({ c with out := popSingle rid c.out }, .ok { completed := some (en.key, .single v) }))
+    ∨ (∃ en, en ∈ c.out ∧ findSingle rid c.out = some en ∧ en.fut ≠ .pending ∧
+        receiveResponse g c v rid =
+          ({ c with out := popSingle rid c.out }, .ok { discarded := some en.key }))
     ∨ (∃ e, receiveResponse g c v rid = (c, .error (.proto e)) ∧ e.errorMessage = none
           ∧ e.responseMsgId = none) := by
-  have hl : PyExc.typeError.caughtBy g.lookup = true := by
-    simp only [adequate, Bool.and_eq_true] at hg; exact hg.1.1.1.1.2
+  have hl : PyExc.typeError.caughtBy g.lookup = true := ((adequate_iff g).1 hg).2.1
+  have hd : g.doneSingle = true := ((adequate_iff g).1 hg).2.2.2.2.2.2.1
   unfold receiveResponse
   cases hb : rid.isBool with
-  | true => exact Or.inr ⟨_, rfl, rfl, rfl⟩
+  | true => exact Or.inr (Or.inr ⟨_, rfl, rfl, rfl⟩)
   | false =>
     simp only [Bool.false_eq_true, if_false]
     cases hin : pyIn rid (singleKeys c.out) with
     | error e =>
       have := pyIn_error _ _ _ hin; subst this
       simp only [hl, if_true]
-      exact Or.inr ⟨_, rfl, rfl, rfl⟩
+      exact Or.inr (Or.inr ⟨_, rfl, rfl, rfl⟩)
     | ok b =>
       cases b with
-      | false => exact Or.inr ⟨_, rfl, rfl, rfl⟩
+      | false => exact Or.inr (Or.inr ⟨_, rfl, rfl, rfl⟩)
       | true =>
         have hany : (singleKeys c.out).any (pyEq rid) = true := by
           unfold pyIn at hin
           split at hin
           · injection hin
           · cases hin
-        obtain ⟨k, hk⟩ := findSingle_of_any rid c.out hany
-        simp only [hk]
-        refine Or.inl ⟨k, ?_, rfl, rfl⟩
-        -- the key found is one of the outstanding ones
-        clear hin hany
-        generalize c.out = out at hk
-        induction out with
-        | nil => simp [findSingle] at hk
-        | cons a r ih =>
-          cases a with
-          | single i =>
-            simp only [findSingle] at hk
-            split at hk
-            · injection hk with hk; subst hk; simp
-            · exact List.mem_cons_of_mem _ (ih hk)
-          | batch ks =>
-            simp only [findSingle] at hk
-            exact List.mem_cons_of_mem _ (ih hk)
+        obtain ⟨en, hk⟩ := findSingle_of_any rid c.out hany
+        simp only [hk, hd]
+        have hmem := findSingle_mem rid c.out en hk
+        rcases resolve_cases { c with out := popSingle rid c.out } en (.single v) with ⟨h1, h2⟩ | ⟨h1, h2⟩
+        · exact Or.inl ⟨en, hmem, rfl, h1, h2⟩
+        · exact Or.inr (Or.inl ⟨en, hmem, rfl, h1, h2⟩)
 
 /-! ### `_receive_response_batch` -/
 
@@ -134,26 +153,34 @@ theorem processResponses_cases (P : Proto) (hP : P ≠ .v1) :
         · rw [h2]; exact Or.inr ⟨_, _, _, rfl⟩
       · rw [h]; exact Or.inr ⟨_, _, _, rfl⟩
 
-theorem findBatch_mem (ids : List J) : ∀ (out : List Key) (k : Key), findBatch ids out = some k → k ∈ out
-  | [], k, h => by simp [findBatch] at h
-  | .single i :: r, k, h => by
-      simp only [findBatch] at h
-      exact List.mem_cons_of_mem _ (findBatch_mem ids r k h)
-  | .batch ks :: r, k, h => by
-      simp only [findBatch] at h
-      split at h
-      · injection h with h; subst h; simp
-      · exact List.mem_cons_of_mem _ (findBatch_mem ids r k h)
+theorem findBatch_mem (ids : List J) : ∀ (out : List Entry) (en : Entry),
+    findBatch ids out = some en → en ∈ out
+  | [], en, h => by simp [findBatch] at h
+  | a :: r, en, h => by
+      unfold findBatch at h
+      cases hk : a.key with
+      | single i =>
+        rw [hk] at h
+        exact List.mem_cons_of_mem _ (findBatch_mem ids r en h)
+      | batch ks =>
+        rw [hk] at h
+        simp only at h
+        split at h
+        · injection h with h; subst h; simp
+        · exact List.mem_cons_of_mem _ (findBatch_mem ids r en h)
 
 /-- `_receive_response_batch` on a connection whose protocol has batches -/
 theorem receiveResponseBatch_cases (g : Guards) (hg : adequate g = true) (c : Conn)
     (hP : c.proto ≠ .v1) (ps : List J) :
-    (∃ k vs ids, k ∈ c.out ∧ findBatch ids c.out = some k ∧
+    (∃ en vs ids, en ∈ c.out ∧ findBatch ids c.out = some en ∧ en.fut = .pending ∧
         receiveResponseBatch g c ps =
-          ({ c with out := popBatch ids c.out }, .ok { completed := some (k, .batch vs) }))
+          ({ c with out := popBatch ids c.out }, .ok { completed := some (en.key, .batch vs) }))
+    ∨ (∃ en ids, en ∈ c.out ∧ findBatch ids c.out = some en ∧ en.fut ≠ .pending ∧
+        receiveResponseBatch g c ps =
+          ({ c with out := popBatch ids c.out }, .ok { discarded := some en.key }))
     ∨ (∃ e, receiveResponseBatch g c ps = (c, .error (.proto e)) ∧ e.errorMessage = none) := by
-  have hs : PyExc.typeError.caughtBy g.sort = true := by
-    simp only [adequate, Bool.and_eq_true] at hg; exact hg.1.1.1.2
+  have hs : PyExc.typeError.caughtBy g.sort = true := ((adequate_iff g).1 hg).2.2.1
+  have hd : g.doneBatch = true := ((adequate_iff g).1 hg).2.2.2.2.2.2.2
   unfold receiveResponseBatch
   rcases processResponses_cases c.proto hP ps with ⟨pairs, h1, _, h3⟩ | ⟨code, msg, rid, h1⟩
   · rw [h1]
@@ -162,7 +189,7 @@ theorem receiveResponseBatch_cases (g : Guards) (hg : adequate g = true) (c : Co
     | error e =>
       have := pySorted_error _ _ _ hso; subst this
       simp only [hs, if_true]
-      exact Or.inr ⟨_, rfl, rfl⟩
+      exact Or.inr (Or.inr ⟨_, rfl, rfl⟩)
     | ok ordered =>
       simp only
       have hall : (ordered.map (·.1)).all J.hashable = true := by
@@ -171,10 +198,16 @@ theorem receiveResponseBatch_cases (g : Guards) (hg : adequate g = true) (c : Co
         exact h3 pr (pySorted_mem _ _ _ hso pr hpr)
       simp only [hall, Bool.not_true, Bool.false_eq_true, if_false]
       cases hf : findBatch (ordered.map (·.1)) c.out with
-      | none => exact Or.inr ⟨_, rfl, rfl⟩
-      | some k => exact Or.inl ⟨k, _, _, findBatch_mem _ _ _ hf, hf, rfl⟩
+      | none => exact Or.inr (Or.inr ⟨_, rfl, rfl⟩)
+      | some en =>
+        simp only [hd]
+        have hmem := findBatch_mem _ _ _ hf
+        rcases resolve_cases { c with out := popBatch (ordered.map (·.1)) c.out } en
+            (.batch (ordered.map (·.2))) with ⟨h1, h2⟩ | ⟨h1, h2⟩
+        · exact Or.inl ⟨en, _, _, hmem, hf, h1, h2⟩
+        · exact Or.inr (Or.inl ⟨en, _, hmem, hf, h1, h2⟩)
   · rw [h1]
-    exact Or.inr ⟨_, rfl, by simp [mkError]⟩
+    exact Or.inr (Or.inr ⟨_, rfl, by simp [mkError]⟩)
 
 /-! ### `_receive_request_batch` -/
 
@@ -182,21 +215,28 @@ theorem receiveResponseBatch_cases (g : Guards) (hg : adequate g = true) (c : Co
 def IsErrorReply (P : Proto) (reply : J) : Prop :=
   ∃ (code : Int) (msg : Str) (rid : J), reply = errorPayload P (.int code) (.str msg) rid
 
+/-- … whose id is `null` or the `id` member of the payload `p` it answers -/
+def IsErrorReplyTo (P : Proto) (p : J) (reply : J) : Prop :=
+  ∃ (code : Int) (msg : Str) (rid : J), IdOf p rid ∧ reply = errorPayload P (.int code) (.str msg) rid
+
+theorem IsErrorReplyTo.isErrorReply {P : Proto} {p reply : J} (h : IsErrorReplyTo P p reply) :
+    IsErrorReply P reply := by
+  obtain ⟨code, msg, rid, _, h⟩ := h; exact ⟨code, msg, rid, h⟩
+
 theorem processMember_cases (g : Guards) (hg : adequate g = true) (P : Proto) (hP : P ≠ .v1) (p : J) :
     (∃ x, processMember g P p = .ok (.inl x) ∧ processRequest P p = .ok x)
-    ∨ (∃ reply, processMember g P p = .ok (.inr reply) ∧ IsErrorReply P reply) := by
-  have hm : PyExc.protocolError.caughtBy g.member = true := by
-    simp only [adequate, Bool.and_eq_true] at hg; exact hg.2
+    ∨ (∃ reply, processMember g P p = .ok (.inr reply) ∧ IsErrorReplyTo P p reply) := by
+  have hm : PyExc.protocolError.caughtBy g.member = true := ((adequate_iff g).1 hg).2.2.2.2.2.1
   unfold processMember
-  rcases processRequest_cases P p (Or.inl hP) with ⟨x, h⟩ | ⟨code, msg, rid, h⟩
+  rcases processRequest_cases P p (Or.inl hP) with ⟨x, h⟩ | ⟨code, msg, rid, hid, h⟩
   · rw [h]; exact Or.inl ⟨x, rfl, rfl⟩
   · rw [h]
     simp only [Exc.cls, hm, if_true, mkError]
-    exact Or.inr ⟨_, rfl, code, msg, rid, rfl⟩
+    exact Or.inr ⟨_, rfl, code, msg, rid, hid, rfl⟩
 
 theorem processRequests_cases (g : Guards) (hg : adequate g = true) (P : Proto) (hP : P ≠ .v1) :
     ∀ ps : List J, ∃ items parts, processRequests g P ps = .ok (items, parts)
-      ∧ (∀ r ∈ parts, IsErrorReply P r) ∧ items.length + parts.length = ps.length
+      ∧ (∀ r ∈ parts, ∃ p ∈ ps, IsErrorReplyTo P p r) ∧ items.length + parts.length = ps.length
       ∧ (∀ it ∈ items, ∃ p ∈ ps, processRequest P p = .ok it)
   | [] => ⟨[], [], rfl, by simp, rfl, by simp⟩
   | p :: ps => by
@@ -204,30 +244,35 @@ theorem processRequests_cases (g : Guards) (hg : adequate g = true) (P : Proto) 
       unfold processRequests
       rcases processMember_cases g hg P hP p with ⟨x, hx, hx'⟩ | ⟨reply, hr, hr'⟩
       · rw [hx, h1]
-        refine ⟨x :: items, parts, rfl, h2, by simp; omega, ?_⟩
-        intro it hit
-        simp only [List.mem_cons] at hit
-        rcases hit with rfl | hit
-        · exact ⟨p, by simp, hx'⟩
-        · obtain ⟨q, hq, hq'⟩ := h4 it hit
+        refine ⟨x :: items, parts, rfl, ?_, by simp; omega, ?_⟩
+        · intro r hr2
+          obtain ⟨q, hq, hq'⟩ := h2 r hr2
           exact ⟨q, by simp [hq], hq'⟩
+        · intro it hit
+          simp only [List.mem_cons] at hit
+          rcases hit with rfl | hit
+          · exact ⟨p, by simp, hx'⟩
+          · obtain ⟨q, hq, hq'⟩ := h4 it hit
+            exact ⟨q, by simp [hq], hq'⟩
       · rw [hr, h1]
         refine ⟨items, reply :: parts, rfl, ?_, by simp; omega, ?_⟩
         · intro r hr2
           simp only [List.mem_cons] at hr2
           rcases hr2 with rfl | hr2
-          · exact hr'
-          · exact h2 r hr2
+          · exact ⟨p, by simp, hr'⟩
+          · obtain ⟨q, hq, hq'⟩ := h2 r hr2
+            exact ⟨q, by simp [hq], hq'⟩
         · intro it hit
           obtain ⟨q, hq, hq'⟩ := h4 it hit
           exact ⟨q, by simp [hq], hq'⟩
 
 /-- `_receive_request_batch`: the valid members as items, or (no valid member at all) one
-`ProtocolError` carrying the batch of the members' error replies -/
+`ProtocolError` carrying the batch of the members' error replies, each under its member's id
+or null -/
 theorem receiveRequestBatch_cases (g : Guards) (hg : adequate g = true) (c : Conn)
     (hP : c.proto ≠ .v1) (ps : List J) :
     (∃ items, receiveRequestBatch g c ps = (c, .ok { items := items }))
-    ∨ (∃ parts, parts ≠ [] ∧ (∀ r ∈ parts, IsErrorReply c.proto r) ∧
+    ∨ (∃ parts, parts ≠ [] ∧ (∀ r ∈ parts, ∃ p ∈ ps, IsErrorReplyTo c.proto p r) ∧
         receiveRequestBatch g c ps =
           (c, .error (.proto { code := 0, msg := [], errorMessage := some (.batch parts) }))) := by
   obtain ⟨items, parts, h1, h2, _, _⟩ := processRequests_cases g hg c.proto hP ps
